@@ -175,9 +175,24 @@ class World:
         self.ev("advance", to=t_ms, timer=False)
 
     # -- subscribers ------------------------------------------------------------------------
-    def _mk_sub(self, who, kind, raises=False, blocks=False, hops=0, sends=None):
+    def _mk_sub(self, who, kind, raises=False, blocks=False, hops=0, sends=None, once=False, adds=False):
         w = self
         counter = {"n": 0}
+        fired = {"n": 0}
+
+        def from_callback():
+            """What user callbacks commonly do: a one-shot subscriber removes itself, a subscriber
+            registers a further one on the same entity - synchronously, inside the callback."""
+            fired["n"] += 1
+            if fired["n"] > 1:
+                return
+            regs = list(getattr(w, "regs", {}).get(who, []))
+            if once:
+                for tgt, k in regs:
+                    w.op_unsub({"who": who, "kind": k, "target": tgt, "in_cb": True})
+            if adds:
+                for tgt, k in regs:
+                    w.op_sub({"who": who + "+", "kind": k, "target": tgt, "in_cb": True})
 
         def announce_send():
             """Logged when the subscriber coroutine is CREATED (the socket builds its callback list
@@ -231,6 +246,8 @@ class World:
         else:  # update subscribers: AirTouch (str id), AC (int), zone (int)
             async def sub(ident):
                 w.ev("cb", who=who, kind=kind, id=P.project(ident))
+                if once or adds:
+                    from_callback()
                 await behave()
         return sub
 
@@ -344,7 +361,8 @@ class World:
         sub = self.subs.get(who)
         if sub is None:
             sub = self._mk_sub(who, kind, raises=op.get("raises", False), blocks=op.get("blocks", False),
-                               hops=op.get("hops", 0), sends=op.get("sends"))
+                               hops=op.get("hops", 0), sends=op.get("sends"), once=op.get("once", False),
+                               adds=op.get("adds", False))
             self.subs[who] = sub
         tgt = self._target(op.get("target", "socket"))
         if tgt is None:
@@ -354,7 +372,10 @@ class World:
                                     "connection": "subscribe_on_connection_changed",
                                     "ac_state": "subscribe_ac_state"}.get(kind, "subscribe")
         getattr(tgt, meth)(sub)
-        self.ev("sub", who=who, kind=kind, target=op.get("target", "socket"), method=meth)
+        if not hasattr(self, "regs"):
+            self.regs = {}
+        self.regs.setdefault(who, []).append((op.get("target", "socket"), kind))
+        self.ev("sub", who=who, kind=kind, target=op.get("target", "socket"), method=meth, in_cb=bool(op.get("in_cb")))
 
     def op_unsub(self, op):
         who = op["who"]
@@ -368,7 +389,7 @@ class World:
                                     "connection": "unsubscribe_on_connection_changed",
                                     "ac_state": "unsubscribe_ac_state"}.get(kind, "unsubscribe")
         getattr(tgt, meth)(sub)
-        self.ev("unsub", who=who, kind=kind, target=op.get("target", "socket"), method=meth)
+        self.ev("unsub", who=who, kind=kind, target=op.get("target", "socket"), method=meth, in_cb=bool(op.get("in_cb")))
 
     def op_echo_written(self, op):
         """Feed back, on the current connection, exactly the bytes the client wrote since the last echo."""
